@@ -194,11 +194,21 @@ def assertions(simname='Simulation', fail_at=3, width=3, exc='custom'):
 
     class Custom(Exception):
         pass
+    class KeySub(KeyError):
+        pass
     MyErr = {'custom': Custom, 'PyrtlError': pyrtl.PyrtlError, 'PyrtlInternalError': pyrtl.PyrtlInternalError,
-             'ValueError': ValueError, 'LookupError': LookupError, 'AttributeError': AttributeError}[exc]
+             'ValueError': ValueError, 'LookupError': LookupError, 'AttributeError': AttributeError,
+             'KeyError': KeyError, 'KeyErrorSubclass': KeySub}[exc]
     ok = pyrtl.WireVector(1, 'ok_w')
     ok <<= (cnt != fail_at) | ~en
-    pyrtl.rtl_assert(ok, MyErr('boom'))
+    try:
+        pyrtl.rtl_assert(ok, MyErr('boom'))
+    except pyrtl.PyrtlError:
+        # an exception class the assertion machinery cannot deliver may be refused at registration
+        # (KeyError and its subclasses are); it must never be accepted and then swallowed
+        if issubclass(MyErr, KeyError):
+            return dict(failed=False, observed='refused at registration', expected='refused or delivered')
+        return dict(failed=True, observed='rtl_assert refused %s' % exc, expected='accepted')
     o = pyrtl.Output(width, 'o')
     o <<= cnt
     sim = _mk(simname, pyrtl.working_block())
@@ -414,4 +424,42 @@ def step_multiple_after_warmup(simname='Simulation', warm=3):
     want = [str(k), 'o', str(bad['o'][k]), str(good['o'][k])]
     if rows != [want]:
         return dict(failed=True, observed=dict(rows=rows, text=text[:200]), expected=dict(rows=[want]))
+    return dict(failed=False, observed='ok', expected='ok')
+
+
+def compiled_after_direct_connect(seed=0, nsteps=8):
+    """CompiledSimulation on a block whose Outputs are driven directly by logic nets (direct_connect_outputs): every
+    wire it traces carries that wire's own values (the Simulation trace of the same block), and a wire it does not
+    trace is refused by inspect rather than answered with another wire's value"""
+    import pyrtl
+    import random
+    pyrtl.reset_working_block()
+    d, en = pyrtl.Input(4, 'd'), pyrtl.Input(4, 'en')
+    acc = pyrtl.Register(4, 'acc', reset_value=0)
+    acc.next <<= (acc + d)[:4]
+    t = pyrtl.WireVector(4, 'sum_w')
+    t <<= acc ^ d
+    o = pyrtl.Output(4, 'o')
+    o <<= acc & en
+    o2 = pyrtl.Output(4, 'o2')
+    o2 <<= t | en
+    pyrtl.direct_connect_outputs()
+    block = pyrtl.working_block()
+    rnd = random.Random(seed)
+    steps = [dict(d=rnd.getrandbits(4), en=rnd.getrandbits(4)) for _ in range(nsteps)]
+    ref = pyrtl.Simulation(tracer=pyrtl.SimulationTrace(wires_to_track='all', block=block), block=block)
+    cs = pyrtl.CompiledSimulation(tracer=pyrtl.SimulationTrace(wires_to_track='all', block=block), block=block)
+    for s_ in steps:
+        ref.step(dict(s_))
+        cs.step(dict(s_))
+    for name, vals in cs.tracer.trace.items():
+        if name in ref.tracer.trace and list(vals) != list(ref.tracer.trace[name]):
+            return dict(failed=True, observed=dict(wire=name, compiled=list(vals)), expected=list(ref.tracer.trace[name]))
+    for name in ('acc', 'sum_w', 'o', 'o2'):
+        try:
+            v = cs.inspect(name)
+        except pyrtl.PyrtlError:
+            continue
+        if v != ref.inspect(name):
+            return dict(failed=True, observed=dict(inspect=name, compiled=v), expected=ref.inspect(name))
     return dict(failed=False, observed='ok', expected='ok')
